@@ -107,8 +107,10 @@ def check_pair(prop, sh, a, b, x, sub, o):
     """o: dict tag -> observation text (canonical); returns failure strings for property prop"""
     f = []
     P = lambda t: G.parse_vtext(o[t]) if t in o and o[t] != 'PANIC' else None
-    if any(v == 'PANIC' for v in o.values()):
-        return [f"panic in {[t for t, v in o.items() if v == 'PANIC']}"]
+    REL = {'C01': ('D', 'A'), 'C02': ('D', 'X'), 'C03': ('D', 'S', 'A', 'X'), 'C04': ('D', 'DR'), 'C05': ('D', 'DR', 'XR', 'ARR', 'A', 'X'),
+           'C06': ('D', 'A', 'AR', 'AM', 'AS'), 'C13': ('D', 'A', 'X')}[prop]
+    if any(o.get(t) == 'PANIC' for t in REL):
+        return [f"panic in {[t for t in REL if o.get(t) == 'PANIC']}"]
     if any(v.startswith('?') for t, v in o.items() if t in ('D', 'DR')):
         return [f"unparsable diff rendering: {o.get('D', '')[:120]}"]
     ents = split_entries(o['D']) if 'D' in o else []
